@@ -467,100 +467,222 @@ fn c13_locale_5() {
     kani::cover!(!w);
 }
 
-// ------------------------------------------------------------------ probes (not registered)
-#[kani::proof]
-#[kani::unwind(8)]
-#[kani::stub(std::hash::RandomState::new, rs_stub)]
-fn probe_conv_empty() {
-    let conv = Converter::empty();
-    assert!(conv.unit_count() == 0);
-    std::mem::forget(conv);
+// ---------------------------------------------------------------------------------------------
+// K-2b: every spelling -> its documented factor (symbolic spelling, concrete value)
+
+/// the 15 documented spellings of the hard-coded table and their factor in minutes per unit (x60 to stay integral)
+const DOC_UNITS: [(&[u8], u32); 15] = [
+    (b"s", 1), (b"sec", 1), (b"secs", 1), (b"second", 1), (b"seconds", 1),
+    (b"m", 60), (b"min", 60), (b"minute", 60), (b"minutes", 60),
+    (b"h", 3600), (b"hour", 3600), (b"hours", 3600),
+    (b"d", 86400), (b"day", 86400), (b"days", 86400),
+];
+
+fn doc_factor(b: &[u8]) -> Option<u32> {
+    let mut i = 0;
+    while i < 15 {
+        let (name, f) = DOC_UNITS[i];
+        if name.len() == b.len() {
+            let mut same = true;
+            let mut j = 0;
+            while j < name.len() {
+                if name[j] != b[j] {
+                    same = false;
+                }
+                j += 1;
+            }
+            if same {
+                return Some(f);
+            }
+        }
+        i += 1;
+    }
+    None
+}
+
+/// unit = N symbolic lower-case ASCII letters; value = 120 (so that every factor gives an exact result)
+fn unit_spelling<const N: usize>() -> bool {
+    let mut buf = [0u8; N];
+    let mut i = 0;
+    while i < N {
+        let c: u8 = kani::any();
+        kani::assume(c >= b'a' && c <= b'z');
+        buf[i] = c;
+        i += 1;
+    }
+    let r = hard_coded_time_units(120.0, as_str(&buf));
+    let want = doc_factor(&buf);
+    let ok = match (&r, want) {
+        (Ok(min), Some(f)) => {
+            // minutes = 120 * f / 60
+            assert!(*min == (2 * f) as f64);
+            true
+        }
+        (Err(_), None) => false,
+        _ => {
+            assert!(false);
+            false
+        }
+    };
+    std::mem::forget(r);
+    ok
 }
 
 #[kani::proof]
-#[kani::unwind(8)]
-fn probe_split_ws() {
-    let mut buf = [0u8; 4];
-    let n = sym_digits(&mut buf, 0, 2);
-    buf[2] = b' ';
-    buf[3] = b'h';
-    let s = as_str(&buf);
-    let mut it = s.split_whitespace();
-    let a = it.next();
-    let b = it.next();
-    assert!(a.is_some() && b == Some("h"));
+#[kani::unwind(17)]
+#[kani::stub(alloc::fmt::format, fmt_stub)]
+fn c13_unit_spelling_1() {
+    let ok = unit_spelling::<1>();
+    kani::cover!(ok);
+    kani::cover!(!ok);
+}
+#[kani::proof]
+#[kani::unwind(17)]
+#[kani::stub(alloc::fmt::format, fmt_stub)]
+fn c13_unit_spelling_2() {
+    let ok = unit_spelling::<2>();
+    kani::cover!(!ok);
+}
+#[kani::proof]
+#[kani::unwind(17)]
+#[kani::stub(alloc::fmt::format, fmt_stub)]
+fn c13_unit_spelling_3() {
+    let ok = unit_spelling::<3>();
+    kani::cover!(ok);
+    kani::cover!(!ok);
+}
+#[kani::proof]
+#[kani::unwind(17)]
+#[kani::stub(alloc::fmt::format, fmt_stub)]
+fn c13_unit_spelling_4() {
+    let ok = unit_spelling::<4>();
+    kani::cover!(ok);
+    kani::cover!(!ok);
+}
+#[kani::proof]
+#[kani::unwind(17)]
+#[kani::stub(alloc::fmt::format, fmt_stub)]
+fn c13_unit_spelling_5() {
+    let ok = unit_spelling::<5>();
+    kani::cover!(ok);
+    kani::cover!(!ok);
+}
+#[kani::proof]
+#[kani::unwind(17)]
+#[kani::stub(alloc::fmt::format, fmt_stub)]
+fn c13_unit_spelling_6() {
+    let ok = unit_spelling::<6>();
+    kani::cover!(ok);
+    kani::cover!(!ok);
+}
+#[kani::proof]
+#[kani::unwind(17)]
+#[kani::stub(alloc::fmt::format, fmt_stub)]
+fn c13_unit_spelling_7() {
+    let ok = unit_spelling::<7>();
+    kani::cover!(ok);
+    kani::cover!(!ok);
 }
 
-#[kani::proof]
-#[kani::unwind(8)]
-fn probe_find_split() {
-    let mut buf = [0u8; 4];
-    let n = sym_digits(&mut buf, 0, 3);
-    buf[3] = b'h';
-    let part = as_str(&buf);
-    let pos = part.find(|c: char| !c.is_ascii_digit() && c != '.');
-    assert!(pos == Some(3));
-    let (a, b) = part.split_at(3);
-    assert!(b == "h");
-}
+// ---------------------------------------------------------------------------------------------
+// K-5b: locale with a two-byte UTF-8 character where an ASCII letter is expected
 
+/// `XY` where XY is one two-byte character (U+0080..U+07FF): not a two-letter code
 #[kani::proof]
 #[kani::unwind(8)]
-fn probe_yaml_string() {
-    let mut buf = [0u8; 4];
-    sym_digits(&mut buf, 0, 4);
+#[kani::stub(alloc::fmt::format, fmt_stub)]
+fn c13_locale_2byte_char() {
+    let b0: u8 = kani::any();
+    let b1: u8 = kani::any();
+    kani::assume(b0 >= 0xC2 && b0 <= 0xDF && b1 >= 0x80 && b1 <= 0xBF);
+    let buf = [b0, b1];
     let v = yaml_str(&buf);
-    assert!(v.as_str().is_some());
+    let r = value_as_locale(&v);
+    assert!(r.is_err());
+    std::mem::forget(r);
     std::mem::forget(v);
 }
 
+/// `ll_C` with C a two-byte character, and `C_ll`: refused
 #[kani::proof]
 #[kani::unwind(8)]
-fn probe_sort_dedup() {
-    let a: u32 = kani::any();
-    let b: u32 = kani::any();
-    let c: u32 = kani::any();
-    let mut v = vec![a, b, c];
-    v.sort_unstable();
-    v.dedup();
-    assert!(v.len() >= 1);
+#[kani::stub(alloc::fmt::format, fmt_stub)]
+fn c13_locale_5_2byte_dialect() {
+    let b0: u8 = kani::any();
+    let b1: u8 = kani::any();
+    kani::assume(b0 >= 0xC2 && b0 <= 0xDF && b1 >= 0x80 && b1 <= 0xBF);
+    let first: bool = kani::any();
+    let buf = if first { [b0, b1, b'_', b'e', b'n'] } else { [b'e', b'n', b'_', b0, b1] };
+    let v = yaml_str(&buf);
+    let r = value_as_locale(&v);
+    assert!(r.is_err());
+    std::mem::forget(r);
     std::mem::forget(v);
+}
+
+// ---------------------------------------------------------------------------------------------
+// K-4b: servings given as a YAML list of numbers: the numbers in order, duplicates refused
+
+fn yaml_num(n: u32) -> serde_yaml::Value {
+    serde_yaml::Value::Number(serde_yaml::Number::from(n as u64))
 }
 
 #[kani::proof]
 #[kani::unwind(8)]
 #[kani::stub(alloc::fmt::format, fmt_stub)]
-fn probe_servings_plain() {
-    // the number itself, no trailing bytes, short
-    let mut buf = [0u8; 2];
-    let n = sym_digits(&mut buf, 0, 2);
-    let v = yaml_str(&buf);
+fn c13_servings_seq3() {
+    let a: u32 = kani::any();
+    let b: u32 = kani::any();
+    let c: u32 = kani::any();
+    let v = serde_yaml::Value::Sequence(vec![yaml_num(a), yaml_num(b), yaml_num(c)]);
     let r = value_as_servings(&v);
-    assert!(r.is_ok());
+    let dup = a == b || b == c || a == c;
+    match &r {
+        Ok(l) => {
+            assert!(!dup);
+            assert!(l.len() == 3 && l[0] == a && l[1] == b && l[2] == c);
+        }
+        Err(_) => assert!(dup),
+    }
+    kani::cover!(r.is_ok());
+    kani::cover!(r.is_err());
     std::mem::forget(r);
     std::mem::forget(v);
 }
 
 #[kani::proof]
 #[kani::unwind(8)]
-fn probe_round_cast() {
-    let t: f64 = kani::any();
-    kani::assume(t.is_finite());
-    let r = t.round() as u32;
-    if t >= 0.0 && t <= 4294967295.0 {
-        assert!((r as f64 - t).abs() <= 0.5);
+#[kani::stub(alloc::fmt::format, fmt_stub)]
+fn c13_servings_seq4() {
+    let x: [u32; 4] = kani::any();
+    let v = serde_yaml::Value::Sequence(vec![yaml_num(x[0]), yaml_num(x[1]), yaml_num(x[2]), yaml_num(x[3])]);
+    let r = value_as_servings(&v);
+    let dup = x[0] == x[1] || x[0] == x[2] || x[0] == x[3] || x[1] == x[2] || x[1] == x[3] || x[2] == x[3];
+    match &r {
+        Ok(l) => {
+            assert!(!dup);
+            assert!(l.len() == 4 && l[0] == x[0] && l[1] == x[1] && l[2] == x[2] && l[3] == x[3]);
+        }
+        Err(_) => assert!(dup),
     }
+    kani::cover!(r.is_ok());
+    kani::cover!(r.is_err());
+    std::mem::forget(r);
+    std::mem::forget(v);
 }
 
+/// a single YAML number is the servings count itself
 #[kani::proof]
 #[kani::unwind(8)]
-fn probe_hard_units_one() {
-    let j: u32 = kani::any();
-    kani::assume(j <= 1_000_000);
-    let v = j as f64;
-    let r = hard_coded_time_units(v, "days");
-    match r {
-        Ok(m) => assert!(m == (j as u64 * 1440) as f64),
-        Err(e) => { std::mem::forget(e); assert!(false) }
+#[kani::stub(alloc::fmt::format, fmt_stub)]
+fn c13_servings_number() {
+    let a: u32 = kani::any();
+    let v = yaml_num(a);
+    let r = value_as_servings(&v);
+    match &r {
+        Ok(l) => assert!(l.len() == 1 && l[0] == a),
+        Err(_) => assert!(false),
     }
+    std::mem::forget(r);
+    std::mem::forget(v);
 }
